@@ -80,6 +80,9 @@ type attempt struct {
 	rawErr  error
 	acked   bool
 	replied int
+	conn    int
+	at, end time.Time
+	head    string
 }
 
 type faultServer struct {
@@ -116,14 +119,20 @@ func newFaultServer(script []Fault) *faultServer {
 	return s
 }
 
-func (s *faultServer) next() *attempt {
+func (s *faultServer) next(c net.Conn) *attempt {
 	s.mu.Lock()
 	defer s.mu.Unlock()
+	ci := 0
+	for i, x := range s.conns {
+		if x == c {
+			ci = i + 1
+		}
+	}
 	f := Fault{Kind: "ok"}
 	if len(s.attempts) < len(s.script) {
 		f = s.script[len(s.attempts)]
 	}
-	a := &attempt{fault: f}
+	a := &attempt{fault: f, conn: ci, at: time.Now()}
 	s.attempts = append(s.attempts, a)
 	return a
 }
@@ -192,16 +201,23 @@ func (s *faultServer) serveConn(c net.Conn) {
 		if _, err := br.Peek(1); err != nil {
 			return
 		}
-		a := s.next()
+		// only an upload of the forwarder under test counts as an attempt (anything else on this port is a stray)
+		first, err := br.ReadString('\n')
+		if err != nil || !strings.HasPrefix(first, "POST ") || !strings.Contains(first, "agent/response") {
+			return
+		}
+		a := s.next(c)
+		a.head = first
 		f := a.fault
 		if f.Kind == "close-in-head" {
 			io.CopyN(io.Discard, br, int64(f.N))
 			c.Close()
 			return
 		}
-		// read the head
+		// read the rest of the head
 		for {
 			line, err := br.ReadString('\n')
+			a.head += line
 			if err != nil {
 				a.rawErr = err
 				return
@@ -212,6 +228,7 @@ func (s *faultServer) serveConn(c net.Conn) {
 		}
 		reply := func(code int, closeAfter bool) {
 			a.replied = code
+			a.end = time.Now()
 			extra := ""
 			if closeAfter {
 				extra = "Connection: close\r\n"
@@ -364,7 +381,7 @@ func runCase(t vh.TB, c *Case) vh.Outcome {
 	attempts := append([]*attempt(nil), srv.attempts...)
 	srv.mu.Unlock()
 	if len(attempts) > 3 {
-		o.Err = fmt.Errorf("the forwarder made %d upload attempts (at most 3 allowed)", len(attempts))
+		o.Err = fmt.Errorf("the forwarder made %d upload attempts (at most 3 allowed) (%s)", len(attempts), describe(srv, attempts))
 		return o
 	}
 	anyAck := false
@@ -387,7 +404,7 @@ func runCase(t vh.TB, c *Case) vh.Outcome {
 			return o
 		}
 		if i+1 < len(attempts) {
-			o.Err = fmt.Errorf("attempt %d was acknowledged and yet the forwarder made another attempt", i+1)
+			o.Err = fmt.Errorf("attempt %d was acknowledged and yet the forwarder made another attempt (%s)", i+1, describe(srv, attempts))
 			return o
 		}
 	}
@@ -401,6 +418,17 @@ func runCase(t vh.TB, c *Case) vh.Outcome {
 		o.Classes = append(o.Classes, "all-attempts-failed")
 	}
 	return o
+}
+
+func describe(srv *faultServer, attempts []*attempt) string {
+	srv.mu.Lock()
+	defer srv.mu.Unlock()
+	var parts []string
+	for i, a := range attempts {
+		parts = append(parts, fmt.Sprintf("#%d conn=%d fault=%s received=%dB acked=%v replied=%d err=%v arrived=+%v answered=+%v head=%q", i+1, a.conn, a.fault.Kind, len(a.raw), a.acked, a.replied, a.rawErr,
+			a.at.Sub(attempts[0].at).Round(10*time.Microsecond), a.end.Sub(attempts[0].at).Round(10*time.Microsecond), a.head))
+	}
+	return strings.Join(parts, "; ")
 }
 
 func checkComplete(raw []byte, status int, body []byte) error {
